@@ -692,7 +692,7 @@ class Executor:
             if "<impl at " not in n:
                 continue
             nm = n.split("::<impl at ")[0]
-            if nm != mod and not nm.endswith("::" + mod) and not mod.endswith("::" + nm):
+            if mod and nm != mod and not nm.endswith("::" + mod) and not mod.endswith("::" + nm):
                 continue
             cands.append(f)
         if len(cands) > 1:
